@@ -31,7 +31,10 @@ Model
 
   with fine(dict)  = items in insertion order, BB values replaced by their idx
                      (liveness: variable keys AND their order AND the evidence BB),
-       fine(set)   = elements in the set's actual iteration order,
+       fine(set)   = sorted elements (the iteration order of a set of *strings* is a
+                     function of the strings' hashes, i.e. of PYTHONHASHSEED — C10
+                     part 2 — and of the `%tmpN` counter, not of the worklist order;
+                     the code base only tests membership on the assignment sets),
        fine(tuple) = component-wise.
   That includes everything that can influence the future of the loop *and* everything
   of the returned `vals_before` a client might compare (key order and evidence BB are
@@ -67,6 +70,7 @@ exists), distinct final results (fine and coarse).
 from __future__ import annotations
 
 import hashlib
+import re
 import sys
 from dataclasses import dataclass, field
 from typing import Any, Callable
@@ -83,23 +87,48 @@ class _Pruned(_Abort):
     pass
 
 
+class _InplaceFallback(_Abort):
+    """The analysis raised during an in-place exploration: redo it by replay."""
+
+
+class _MemoHit(_Abort):
+    def __init__(self, summary):
+        self.summary = summary
+
+
 class _Done(_Abort):
     pass
 
 
-class ReplayDivergence(Exception):
-    """Re-running the thunk with identical choices behaved differently."""
+class ReplayDivergence(BaseException):
+    """Re-running the thunk with identical choices behaved differently.
+    (BaseException: the pipeline's `except Exception` must not classify it.)"""
 
 
-class ExplorerError(Exception):
+class ExplorerError(BaseException):
     """Misuse or broken assumption of the explorer (a harness bug, never a finding)."""
 
 
 # ------------------------------------------------------------------ canonical forms
 
 
+# `%tmpN` variable names come from a process-global counter (cfg/builder.py tmp_vars), so
+# the same program gets different N in every execution.  A thunk may set _TMP_BASE to the
+# counter value at its start (see pipeline_outcome); names are then compared relative to it.
+_TMP_BASE: int | None = None
+_TMP_RE = re.compile(r"%tmp(\d+)")
+
+
+def _norm_tmp(text: str) -> str:
+    base = _TMP_BASE
+    if base is None:
+        return text
+    return _TMP_RE.sub(lambda m: f"%tmp+{int(m.group(1)) - base}", text)
+
+
 def _key(k: Any) -> str:
-    return k if type(k) is str else repr(k)
+    r = k if type(k) is str else repr(k)
+    return _norm_tmp(r) if "%tmp" in r else r
 
 
 def _bbidx(b: Any) -> Any:
@@ -110,16 +139,18 @@ def _bbidx(b: Any) -> Any:
 def _keys(it) -> tuple:
     ks = tuple(it)
     try:
-        "".join(ks)            # all str?  (checked at C speed)
-        return ks
+        j = "".join(ks)        # all str?  (checked at C speed)
     except TypeError:
-        return tuple(_key(k) for k in ks)
+        return tuple([_key(k) for k in ks])
+    if "%tmp" in j:
+        return tuple([_norm_tmp(k) for k in ks])
+    return ks
 
 
 def fine(v: Any) -> tuple:
     """Fine canonical form of a lattice value (see module docstring):
     dict -> ('D', keys in insertion order, evidence idxs in the same order),
-    set  -> ('S', elements in iteration order), tuple -> ('T', components)."""
+    set  -> ('S', sorted elements), tuple -> ('T', components)."""
     t = type(v)
     if t is dict:
         try:
@@ -128,7 +159,7 @@ def fine(v: Any) -> tuple:
             ev = tuple([_bbidx(b) for b in v.values()])
         return ("D", _keys(v), ev)
     if t is set or t is frozenset:
-        return ("S", _keys(v))
+        return ("S", tuple(sorted(_keys(v))))
     if t is tuple:
         return ("T", tuple([fine(x) for x in v]))
     if hasattr(v, "keys") and hasattr(v, "values"):
@@ -157,9 +188,38 @@ def coarse_vals(fv: tuple) -> tuple:
     return tuple(sorted([(i, coarsen(v)) for i, v in fv]))
 
 
+def analysis_fingerprint(analysis, vals_before) -> tuple | None:
+    """Everything `run()` of the two known analyses reads: class, parameters, the blocks
+    in `vals_before` order with their edges (by idx), reachable flag and stat keys (in
+    order), and the initial lattice values.  Two invocations with equal fingerprints
+    have the same state graph, so an exploration can be reused (`memo=True`).  Unknown
+    analysis classes give None (never reused)."""
+    cls = type(analysis)
+    if cls.__module__ != "guppylang_internals.cfg.analysis" or cls.__name__ not in (
+            "LivenessAnalysis", "AssignmentAnalysis"):
+        return None
+    stats = analysis.stats
+    parts: list = [cls.__name__, bool(analysis.include_unreachable())]
+    for attr in ("_initial", "ass_before_entry", "maybe_ass_before_entry", "all_vars"):
+        if hasattr(analysis, attr):
+            parts.append((attr, fine(getattr(analysis, attr))))
+    blocks = []
+    for bb, v in vals_before.items():
+        st = stats[bb]
+        blocks.append((bb.idx, bool(bb.reachable),
+                       tuple([s.idx for s in bb.successors]),
+                       tuple([s.idx for s in bb.predecessors]),
+                       tuple([s.idx for s in bb.dummy_successors]),
+                       tuple([s.idx for s in bb.dummy_predecessors]),
+                       _keys(st.used), _keys(st.assigned), fine(v)))
+    parts.append(tuple(blocks))
+    # stats of blocks outside `vals_before` are never read
+    return tuple(parts)
+
+
 # ------------------------------------------------------------------- the worklist
 
-_SCRIPT, _EXPLORE, _DEFAULT = 0, 1, 2
+_SCRIPT, _EXPLORE, _DEFAULT, _INPLACE = 0, 1, 2, 3
 
 
 class _Queue:
@@ -177,10 +237,10 @@ class _Queue:
         self.inv = inv
 
     def __len__(self) -> int:
-        n = len(self.items)
-        if n == 0:
+        if not self.items:
+            # may raise (end of an explored schedule) or, in-place, refill the worklist
             self.ctl._terminal(self, sys._getframe(1))
-        return n
+        return len(self.items)
 
     def pop(self):
         return self.ctl._pop(self, sys._getframe(1))
@@ -223,6 +283,9 @@ class InvocationReport:
     schedules_represented: int | None = None       # path count of the state graph
     cyclic: bool = False
     budget: int | None = None
+    fingerprint: Any = None
+    memo_of: Any = None                            # report this one was copied from
+    continued: bool = False                        # explored in the execution of its parent
 
     @property
     def distinct_fine(self) -> int:
@@ -238,6 +301,8 @@ class ExploreResult:
     invocations: list            # [InvocationReport] one per explored tree node
     outcomes: dict               # outcome -> script (tuple of witnesses) of a leaf
     leaves: int = 0
+    thunk_runs: int = 0
+    memo_hits: int = 0
     executions: int = 0
     states: int = 0
     transitions: int = 0
@@ -254,7 +319,7 @@ class ExploreResult:
 class _Exec:
     """Mutable state of one execution."""
     __slots__ = ("script", "target", "prefix", "n_inv", "active", "tq", "src",
-                 "dev0", "report")
+                 "dev0", "report", "chain", "budget")
 
 
 class Explorer:
@@ -264,9 +329,14 @@ class Explorer:
                  describe: Callable[[Any], Any] | None = None,
                  explore_filter: Callable[[Any], bool] | None = None,
                  max_states: int = 500_000, max_pops: int = 20_000,
-                 max_invocations: int = 10_000, explore_invocations: int | None = None):
+                 max_invocations: int = 10_000, explore_invocations: int | None = None,
+                 memo: bool = False, strategy: str = "replay"):
         if branch not in ("fine", "first"):
             raise ExplorerError("branch must be 'fine' or 'first'")
+        if strategy not in ("replay", "inplace"):
+            raise ExplorerError("strategy must be 'replay' or 'inplace'")
+        self.strategy = strategy
+        self._node_strategy = strategy
         self.thunk = thunk
         self.k = max_deviations
         self.dedup = dedup
@@ -280,6 +350,11 @@ class Explorer:
         # explore only the first N (filtered) invocations and do not run the rest of the
         # execution at all (for clients that only look at the invocation reports)
         self.explore_invocations = explore_invocations
+        # reuse the exploration of an invocation whose inputs (analysis_fingerprint) and
+        # deviation budget were explored before
+        self.memo: dict | None = {} if memo else None
+        self.memo_hits = 0
+        self.thunk_runs = 0
         self._x: _Exec | None = None
         # per-invocation exploration state (valid while exploring one tree node)
         self._visited: dict = {}
@@ -288,6 +363,10 @@ class Explorer:
         self._pending: list = []
         self._finals: dict = {}
         self._terminal_sids: set = set()
+        # in-place exploration (strategy="inplace")
+        self._ip_stack: list = []
+        self._ip_devs = 0
+        self._ip_forced: int | None = None
 
     # ---- hook --------------------------------------------------------------
     def _hook(self, queue, analysis):
@@ -305,17 +384,77 @@ class Explorer:
         if i < x.target:
             return _Queue(queue, self, analysis, _SCRIPT, i)
         if i == x.target:
-            q = _Queue(queue, self, analysis, _EXPLORE, i)
+            q = _Queue(queue, self, analysis,
+                       _INPLACE if self._node_strategy == "inplace" else _EXPLORE, i)
             x.active = True
             x.tq = q
             r = x.report
-            if r.executions == 1:
+            if r.executions == 1 or r.continued:
+                r.continued = False
                 r.analysis = type(analysis).__name__
                 r.n_queue0 = len(q.items)
                 if self.describe is not None:
                     r.info = self.describe(analysis)
+                if self.memo is not None:
+                    fp = analysis_fingerprint(analysis, sys._getframe(1).f_locals["vals_before"])
+                    r.fingerprint = None if fp is None else (fp, self.k)
+                    hit = self.memo.get(r.fingerprint) if fp is not None else None
+                    if hit is not None:
+                        self.memo_hits += 1
+                        self._copy_memo(r, hit)
+                        if self._may_continue(r):
+                            # deterministic invocation explored before: script it and
+                            # go on to the next invocation in this same execution
+                            self._continue_chain(x, r)
+                            x.active = False
+                            q.role = _SCRIPT
+                            return q
+                        raise _MemoHit(hit)
             return q
         raise ExplorerError("execution continued past the target invocation")
+
+    # ---- chain continuation ---------------------------------------------------
+    # When the invocation just explored (or found in the memo) has exactly ONE fine
+    # final result reachable without deviation, aborting and re-running the thunk with
+    # that result scripted would reproduce what is already at hand, so the same
+    # execution simply goes on and explores the next invocation.  Purely an economy:
+    # the explored tree is the same.
+    @staticmethod
+    def _copy_memo(r: InvocationReport, hit: InvocationReport) -> None:
+        r.analysis, r.n_queue0, r.info = hit.analysis, hit.n_queue0, hit.info
+        r.finals, r.memo_of = hit.finals, hit
+        r.cyclic, r.schedules_represented = hit.cyclic, hit.schedules_represented
+
+    def _may_continue(self, r: InvocationReport) -> bool:
+        if len(r.finals) != 1 or r.finals[0].fine[0] == "EXC" or r.finals[0].devs != 0:
+            return False
+        return self.explore_invocations is None or r.index + 1 < self.explore_invocations
+
+    def _continue_chain(self, x: _Exec, r: InvocationReport) -> None:
+        f = r.finals[0]
+        x.chain.append(r)
+        x.script = x.script + ((f.witness, f.fine),)
+        x.target += 1
+        nr = InvocationReport(index=x.target, script=tuple(w for w, _ in x.script),
+                              budget=x.budget)
+        nr.executions = 0          # shares the current execution
+        nr.continued = True
+        x.report = nr
+        x.src = None
+        self._reset_node()
+
+    def _reset_node(self) -> None:
+        self._visited, self._sids, self._edges = {}, {}, {}
+        self._pending, self._finals, self._terminal_sids = [], {}, set()
+        self._ip_stack, self._ip_devs, self._ip_forced = [], 0, None
+
+    def _finish_report(self, r: InvocationReport) -> None:
+        r.states = len(self._sids)
+        r.finals = sorted(self._finals.values(), key=lambda f: repr(f.fine))
+        if self.dedup and r.budget is None:
+            r.cyclic, r.schedules_represented = self._count_paths()
+        if self.memo is not None and r.fingerprint is not None:
+            self.memo[r.fingerprint] = r
 
     # ---- pop / terminal ----------------------------------------------------
     @staticmethod
@@ -331,6 +470,8 @@ class Explorer:
                 None if va is None else fine_vals(va))
 
     def _pop(self, q: _Queue, frame):
+        if q.role == _INPLACE:
+            return self._inplace_pop(q, frame)
         elems = sorted(q.items, key=_bbidx) if len(q.items) > 1 else list(q.items)
         if not elems:
             raise KeyError("pop from an empty worklist")
@@ -394,6 +535,8 @@ class Explorer:
         role = q.role
         if role == _DEFAULT:
             return
+        if role == _INPLACE:
+            return self._inplace_terminal(q, frame)
         x = self._x
         if role == _SCRIPT:
             w, fexp = x.script[q.inv]
@@ -417,8 +560,119 @@ class Explorer:
             if x.src is not None:
                 self._edges.setdefault(x.src[0], {})[x.src[1]] = sid
         self._record_final(fv, tuple(q.choices))
+        x.report.complete += 1
         x.active = False
         raise _Done()
+
+    # ---- in-place strategy ----------------------------------------------------
+    # One execution explores the whole invocation: instead of aborting at a known or
+    # terminal state and re-running the thunk with a longer prefix, the explorer puts
+    # the loop's state back to a saved one.  That state is exactly what the
+    # deduplication already relies on: `vals_before`, `vals_after` (dicts held by the
+    # frame of `run`, restored by assigning the saved value objects back to their keys)
+    # and the worklist (our object).  Saved values are kept by reference, so this needs
+    # one more assumption than replay: stored lattice values are never mutated in place
+    # (true of cfg/analysis.py: join/apply_bb build new objects).  Every restore
+    # re-derives the canonical state and compares it with the one recorded when the
+    # snapshot was taken; a difference raises ExplorerError.  Same DFS order as replay,
+    # hence identical states / transitions / finals / witnesses (C09 cross-checks that).
+    def _ip_restore(self, q: _Queue, frame, snap, c: int) -> None:
+        items, vb_items, va_items, s, path, devs, sid = snap
+        loc = frame.f_locals
+        vb = loc["vals_before"]
+        for bb, v in vb_items:
+            vb[bb] = v
+        if va_items is not None:
+            va = loc["vals_after"]
+            for bb, v in va_items:
+                va[bb] = v
+        q.items = set(items)
+        if s is not None and self._state(q, frame) != s:
+            raise ExplorerError("in-place snapshot no longer reproduces its state "
+                                "(a stored lattice value was mutated in place?)")
+        q.choices = list(path)
+        self._ip_devs = devs + 1
+        self._x.src = (sid, c) if sid is not None else None
+
+    def _inplace_pop(self, q: _Queue, frame):
+        x = self._x
+        r = x.report
+        if self._ip_forced is not None:          # state was restored by _inplace_terminal
+            c = self._ip_forced
+            self._ip_forced = None
+        else:
+            if len(q.choices) > self.max_pops:
+                raise ExplorerError(f"more than {self.max_pops} pops in one schedule")
+            left = None if self.k is None else self.k - self._ip_devs
+            expand = True
+            s = sid = None
+            if self.dedup:
+                s = self._state(q, frame)
+                sid = self._sids.get(s)
+                if sid is None:
+                    sid = self._sids[s] = len(self._sids)
+                    if len(self._sids) > self.max_states:
+                        raise ExplorerError(f"more than {self.max_states} states")
+                if x.src is not None:
+                    self._edges.setdefault(x.src[0], {})[x.src[1]] = sid
+                seen = self._visited.get(sid, "no")
+                if seen != "no" and (left is None or seen >= left):
+                    r.pruned += 1
+                    expand = False
+                else:
+                    self._visited[sid] = left
+            if expand:
+                n = len(q.items)
+                if n > 1 and (left is None or left > 0):
+                    loc = frame.f_locals
+                    va = loc.get("vals_after")
+                    snap = (frozenset(q.items), list(loc["vals_before"].items()),
+                            None if va is None else list(va.items()), s, tuple(q.choices),
+                            self._ip_devs, sid)
+                    for alt in range(n - 1, 0, -1):
+                        self._ip_stack.append((snap, alt))
+                c = 0
+                x.src = (sid, 0) if sid is not None else None
+            else:
+                if not self._ip_stack:
+                    x.active = False
+                    raise _Done()
+                snap, c = self._ip_stack.pop()
+                self._ip_restore(q, frame, snap, c)
+        r.transitions += 1
+        elems = sorted(q.items, key=_bbidx) if len(q.items) > 1 else list(q.items)
+        if c >= len(elems):
+            raise ExplorerError("in-place choice out of range")
+        b = elems[c]
+        q.items.remove(b)
+        q.choices.append(c)
+        q.pos = len(q.choices)
+        return b
+
+    def _inplace_terminal(self, q: _Queue, frame) -> None:
+        x = self._x
+        fv = fine_vals(frame.f_locals["vals_before"])
+        if self.dedup:
+            s = self._state(q, frame)
+            sid = self._sids.get(s)
+            if sid is None:
+                sid = self._sids[s] = len(self._sids)
+            self._terminal_sids.add(sid)
+            if x.src is not None:
+                self._edges.setdefault(x.src[0], {})[x.src[1]] = sid
+        self._record_final(fv, tuple(q.choices))
+        x.report.complete += 1
+        if not self._ip_stack:
+            x.active = False
+            r = x.report
+            self._finish_report(r)
+            if self._may_continue(r) and r.finals[0].fine == fv:
+                self._continue_chain(x, r)     # worklist is empty: run() returns now
+                return
+            raise _Done()
+        snap, c = self._ip_stack.pop()
+        self._ip_restore(q, frame, snap, c)
+        self._ip_forced = c                      # the next pop() takes it
 
     def _record_final(self, fv, witness: tuple) -> None:
         devs = sum(1 for c in witness if c)
@@ -440,24 +694,29 @@ class Explorer:
         x = _Exec()
         x.script, x.target, x.prefix = script, target, prefix
         x.n_inv, x.active, x.tq, x.src, x.dev0, x.report = 0, False, None, src, dev0, report
+        x.chain, x.budget = [], self.k
         prev_x, prev_hook = self._x, A._VERIF_SCHED
         self._x = x
         A._VERIF_SCHED = self._hook
         report.executions += 1
+        self.thunk_runs += 1
         try:
             try:
                 v = self.thunk()
             except _Done:
-                report.complete += 1
                 return "aborted", None
             except _Pruned:
                 return "aborted", None
+            except _MemoHit as h:
+                return "memo", h.summary
             except (ReplayDivergence, ExplorerError):
                 raise
             except Exception as e:  # noqa: BLE001 - classified below
                 if x.active:
                     # the analysis itself raised under this schedule: a terminal
                     # result of the target invocation
+                    if self._node_strategy == "inplace":
+                        raise _InplaceFallback() from None
                     q = x.tq
                     self._record_final(("EXC", type(e).__name__, str(e)[:160]),
                                        tuple(q.choices))
@@ -466,41 +725,57 @@ class Explorer:
                 return "raised", e
             if x.active:
                 raise ExplorerError("thunk returned while the target invocation was running")
-            if x.n_inv > target:
+            if x.n_inv > x.target:
                 raise ExplorerError("execution continued past the target invocation")
             return "completed", v
         finally:
+            self._last_x = x
             self._x = prev_x
             A._VERIF_SCHED = prev_hook
 
     # ---- one tree node: explore invocation `target` completely ------------------
     def _explore_invocation(self, script: tuple, budget: int | None):
-        """Returns ('leaf', status, value) if the execution has no invocation number
-        len(script), else ('inv', InvocationReport)."""
+        """Explores invocation number len(script) (and, by chain continuation, possibly
+        the deterministic invocations after it).  Returns
+        (chain, script', ('leaf', status, value))  if the execution ran to its end, or
+        (chain, script', ('inv', report))          with the report of the last explored
+        invocation, where chain = reports of the invocations continued past and script'
+        = the script extended by their witnesses."""
         target = len(script)
         rep = InvocationReport(index=target, script=tuple(w for w, _ in script), budget=budget)
-        self._visited, self._sids, self._edges = {}, {}, {}
-        self._pending, self._finals, self._terminal_sids = [], {}, set()
+        self._reset_node()
         saved_k = self.k
         self.k = budget
         try:
-            status, v = self._execute(script, target, (), 0, None, rep)
+            try:
+                status, v = self._execute(script, target, (), 0, None, rep)
+            except _InplaceFallback:
+                self._node_strategy = "replay"
+                try:
+                    return self._explore_invocation(script, budget)
+                finally:
+                    self._node_strategy = self.strategy
+            x = self._last_x
+            chain, script2, rep = x.chain, x.script, x.report
+            if status == "memo":
+                return chain, script2, ("inv", rep)
             if status != "aborted":
-                return ("leaf", status, v)
+                return chain, script2, ("leaf", status, v)
+            if self._node_strategy == "inplace":
+                if not rep.finals:             # aborted inside pop(): not finished yet
+                    self._finish_report(rep)
+                return chain, script2, ("inv", rep)
             while self._pending:
                 prefix, dev, src = self._pending.pop()
                 rep.transitions += 1     # the last choice of the prefix is a new transition
-                status, v = self._execute(script, target, prefix, dev, src, rep)
-                if status != "aborted":
+                status, v = self._execute(script2, rep.index, prefix, dev, src, rep)
+                if status != "aborted" or self._last_x.chain:
                     raise ReplayDivergence(
-                        f"invocation {target} vanished on re-execution ({status})")
+                        f"invocation {rep.index} vanished on re-execution ({status})")
         finally:
             self.k = saved_k
-        rep.states = len(self._sids)
-        rep.finals = sorted(self._finals.values(), key=lambda f: repr(f.fine))
-        if self.dedup and budget is None:
-            rep.cyclic, rep.schedules_represented = self._count_paths()
-        return ("inv", rep)
+        self._finish_report(rep)
+        return chain, script2, ("inv", rep)
 
     def _count_paths(self):
         """(cyclic?, number of complete schedules in the state graph from state 0)."""
@@ -541,23 +816,30 @@ class Explorer:
     def explore(self) -> ExploreResult:
         res = ExploreResult(invocations=[], outcomes={})
         work = [((), self.k)]
-        while work:
-            script, budget = work.pop()
-            node = self._explore_invocation(script, budget)
-            if node[0] == "leaf":
-                _, status, v = node
-                res.leaves += 1
-                res.executions += 1
-                out = (self.outcome_of(v) if status == "completed"
-                       else ("RAISED", type(v).__name__, str(v)[:200]))
-                res.outcomes.setdefault(out, tuple(w for w, _ in script))
-                continue
-            rep = node[1]
+
+        def account(rep):
             res.invocations.append(rep)
             res.executions += rep.executions
             res.states += rep.states
             res.transitions += rep.transitions
             res.complete_schedules += rep.complete
+
+        while work:
+            script, budget = work.pop()
+            chain, script, node = self._explore_invocation(script, budget)
+            for r in chain:
+                account(r)
+            if node[0] == "leaf":
+                _, status, v = node
+                res.leaves += 1
+                if not chain:
+                    res.executions += 1
+                out = (self.outcome_of(v) if status == "completed"
+                       else ("RAISED", type(v).__name__, str(v)[:200]))
+                res.outcomes.setdefault(out, tuple(w for w, _ in script))
+                continue
+            rep = node[1]
+            account(rep)
             if self.explore_invocations is not None and rep.index + 1 >= self.explore_invocations:
                 continue
             nxt = [f for f in rep.finals if f.fine[0] != "EXC"]
@@ -569,6 +851,7 @@ class Explorer:
             for f in reversed(nxt):
                 work.append((script + ((f.witness, f.fine),),
                              None if budget is None else budget - f.devs))
+        res.thunk_runs, res.memo_hits = self.thunk_runs, self.memo_hits
         return res
 
 
@@ -625,29 +908,47 @@ def run_with_schedule(thunk, script):
 _PROG_NAME = "vsched_prog"
 
 
-def pipeline_outcome(src: str, fn: str = "main") -> tuple:
+def pipeline_outcome(src: str, fn: str = "main", check_first: bool = False) -> tuple:
     """Load `src` under a FIXED synthetic module/file name (so that diagnostics and
-    HUGR metadata cannot differ merely by gload's module counter), run check +
-    compile_function, and reduce the result to a comparable value:
-    ('ok', sha256(package.to_bytes())) | ('error', rendered text) | ('crash', text)."""
+    HUGR metadata cannot differ merely by gload's module counter), run the real
+    pipeline and reduce the result to a comparable value:
+    ('ok', sha256(package.to_bytes())) | ('error', stage, rendered text) |
+    ('crash', stage, text).
+
+    The pipeline is `defn.compile_function()`, i.e. `ENGINE.compile`, which itself runs
+    the complete `ENGINE.check` (reset + parse + check) before lowering.  With
+    check_first=True `defn.check()` is called before it as vlib.gload.outcome does; that
+    only repeats every analysis invocation (and squares the explored product)."""
+    global _TMP_BASE
     from vlib import gload
+    from guppylang_internals.cfg.builder import tmp_vars
     from guppylang_internals.error import GuppyError
     full = gload.PRELUDE + src
     mod = None
+    saved_base = _TMP_BASE
+    _TMP_BASE = int(next(tmp_vars)[4:]) + 1      # consume one name: the counter's position
     try:
+        stage = "define"
         try:
             mod = gload.load(full, name=_PROG_NAME)
+            defn = mod.__dict__[fn]
+            if check_first:
+                stage = "check"
+                defn.check()
+            stage = "compile"
+            pkg = defn.compile_function()
+            return ("ok", hashlib.sha256(pkg.to_bytes()).hexdigest())
         except GuppyError as e:
-            return ("error", "define", gload.render_error(e))
+            try:
+                return ("error", stage, gload.render_error(e))
+            except Exception as e2:  # noqa: BLE001
+                return ("crash", "render", f"{type(e2).__name__}: {e2}")
+        except RecursionError as e:
+            return ("crash", stage, f"RecursionError: {e}")
         except Exception as e:  # noqa: BLE001
-            return ("crash", "define", f"{type(e).__name__}: {e}")
-        o = gload.outcome(mod.__dict__[fn])
-        if o.kind == "ok":
-            return ("ok", hashlib.sha256(o.package.to_bytes()).hexdigest())
-        if o.kind == "error":
-            return ("error", o.stage, o.rendered)
-        return ("crash", o.stage, o.exc)
+            return ("crash", stage, f"{type(e).__name__}: {e}")
     finally:
+        _TMP_BASE = saved_base
         if mod is not None:
             gload.unload(mod)
 
@@ -658,5 +959,6 @@ def explore_program_schedules(src: str, fn: str = "main", max_deviations: int | 
     `max_deviations` departures from the default order (None = every schedule) and
     return {'outcomes': {outcome: witness script}, 'result': ExploreResult}.
     Several distinct outcomes = the compiler's output depends on the worklist order."""
+    kw.setdefault("memo", True)
     res = explore(lambda: pipeline_outcome(src, fn), max_deviations=max_deviations, **kw)
     return {"outcomes": res.outcomes, "result": res}
